@@ -2,45 +2,82 @@
 import hashlib, os, re
 
 LEAN_MODULE = "RemocModel.Props.C06"
-LEAN_EXES = ["fault"]
-HARNESS_BINS = ["mux"]
+LEAN_EXES = ["fault", "faultup"]
+HARNESS_BINS = ["mux", "faultup"]
 THEOREMS = [
     "Remoc.Conn.idle_not_torn_down",
     "Remoc.Conn.timedOut_false",
     "Remoc.Conn.silence_times_out",
     "Remoc.Conn.first_fault_terminates",
     "Remoc.Link.prefix_after_fault",
+    "Remoc.Conn.terminated_all_error",
+    "Remoc.Conn.terminated_nothing_pending",
+    "Remoc.Conn.terminated_releases_ports",
+    "Remoc.Conn.later_ops_error",
+    "Remoc.Conn.later_user_owned_ok",
+    "Remoc.Conn.api_after_termination",
+    "Remoc.Conn.api_after_termination_err",
+    "Remoc.Conn.termination_bounded",
+    "Remoc.Conn.fault_or_silence_terminates",
 ]
-RULE = ("fault enumeration on two real endpoints under a virtual clock (connection_timeout 1000..2000 ms): for each workload "
-        "(ports opened from both sides, multi-chunk sends, chunk streams, port batches, calls left pending: connect without "
-        "accept, accept without connect, receive on an idle port, Sender::closed, a send larger than the receive buffer; calls "
-        "started after the fault) a fault-free baseline counts the items on each wire, then one run per cut point (quick: every "
-        "2nd item index incl. inside the handshake and between a Data header and its payload; thorough: every index) x wire x "
-        "{sink error, stream error, end of stream, one-directional stall, two-directional stall}; plus idle-but-healthy "
-        "connections kept silent for 1000 timeouts. A case is non-trivial if the fault fired before the workload finished; "
-        "distinct = distinct (workload, wire, index, kind).")
+RULE = ("fault enumeration on two real endpoints under a virtual clock (connection_timeout 400..10000 ms, different per side). "
+        "(1) raw ports (mux faultsweep): for each workload (ports opened from both sides, multi-chunk sends, chunk streams, port batches, "
+        "calls left pending: connect without accept, accept without connect, receive on an idle port, Sender::closed, a send larger than "
+        "the receive buffer; calls started after the fault) a fault-free baseline counts the items on each wire, then one run per cut "
+        "point (quick: every 2nd item index incl. inside the handshake and between a Data header and its payload; thorough: every index) x "
+        "wire x {sink error, stream error, end of stream, one-directional stall, two-directional stall}; plus idle-but-healthy connections "
+        "kept silent for 1000 timeouts. (2) layers above raw ports (faultup sweep): one workload over two remoc::Connect::framed "
+        "connections on the same script-owned transport: rch::mpsc (two senders per channel, 300-byte items spanning many chunks, closed(), "
+        "a sender blocked by back pressure), oneshot, watch (changed/borrow/send), broadcast, bin, lr in both directions, an rtc client "
+        "(calls answered, one call kept in flight), an robs vector mirror, a remote RwLock (read, committed write, write in flight behind a "
+        "held read guard), two Lazy values; variants: chunk 16/64/16384, rtc spawn on/off, wires that deliver at once or one item per "
+        "virtual millisecond; every call of the traffic phase is in flight at some cut point, 17..18 calls are pending when the fault "
+        "strikes late, 40 calls are started after both dispatchers have ended; quick: cut points sampled with a stride giving about 600 "
+        "runs, thorough: every index x both wires x 5 kinds for 4 consecutive variants (all combinations of rtc spawn, held read guard and wire latency, all three chunk sizes). A case is non-trivial if the fault fired; distinct = distinct "
+        "(workload/variant, wire, index, kind).")
 TRUSTED_BASE = [
     "M_conn: arrival-gap arithmetic of the ping/timeout pair and the first-fault rule of the run loop (lean/RemocModel/Conn/Model.lean)",
+    "M_conn wait/link model (lean/RemocModel/Conn/Waits.lean): which runtime object every API wait is parked on and who owns it is read "
+    "off the source (table in the file header); tokio's mpsc/oneshot/semaphore wake their waiters when closed or dropped",
     "Tokio's paused clock: time advances only when every task is idle, so virtual time measures 'bounded time'",
-    "harness transport fault injection (harness/src/transport.rs) and lean/Driver/Fault.lean",
+    "harness transport fault injection (harness/src/transport.rs), lean/Driver/Fault.lean, lean/Driver/FaultUp.lean",
 ]
-ASSUMPTIONS = ["both endpoints have a connection timeout configured (a silent stall is undetectable otherwise, as documented)"]
-LEVEL_TEXT = ("Lean 4 theorems: with pings every half timeout and latency jitter below the other half the receive task never "
-              "times out however long the idle period (idle_not_torn_down); silence of one timeout is detected; the run loop "
-              "returns the first fault it is shown (never Ok/running); delivered is a prefix of sent at every cut point (C01 for "
-              "all truncated schedules). That every API wait is woken with an error is a runtime fact: it is decided by "
-              "enumerating every cut point x direction x fault kind on the real endpoints with a quiescence detector (no call "
-              "pending, both dispatchers ended with an error of the predicted class within timeout_A+timeout_B of virtual time).")
-LEVEL_NOTE = ("Partial: 'errors every operation, hangs nothing' is established by enumeration of cut points of the explored "
-              "workloads, not by proof (ownership/wake-up links live in the runtime). Theorems cover timing, first-fault and prefix.")
-TECHNIQUE = "Lean 4 proofs (timing arithmetic, first-fault rule, prefix) + exhaustive fault-point enumeration on the real crate under a virtual clock"
+ASSUMPTIONS = ["both endpoints have a connection timeout configured (a silent stall is undetectable otherwise, as documented)",
+               "an allocator / connect-semaphore wait is outside the guarantee while the user itself holds every port number / permit "
+               "(these two links are not owned by the dispatcher; terminated_all_error names exactly this exception)"]
+LEVEL_TEXT = ("Lean 4 theorems. Timing: with pings every half timeout and latency jitter below the other half the receive task never "
+              "times out however long the idle period (idle_not_torn_down); silence of one timeout is detected; the run loop returns the "
+              "first fault it is shown (never Ok/running); delivered is a prefix of sent at every cut point (C01 for all truncated "
+              "schedules). Waits: on an LTS of one endpoint with every kind of API wait (credits, event queue, port queue, closed-notifier, "
+              "connect response, sent-notifier, listener queues, accept response, port allocator, connect semaphore), explicit wake-ups "
+              "and a clock, for all label sequences: after `terminate` no wait on a dispatcher-owned link is left at quiescence and every "
+              "wait that returned afterwards returned the class of the table (terminated_all_error, terminated_releases_ports); a wait started afterwards returns at "
+              "its first poll with that class (later_ops_error); the table for each chmux API call (api_after_termination); while `run` "
+              "has not returned at most `timeout` passed since the inbound direction went silent, no time passes after a shown fault, and "
+              "`terminate` is enabled with an error result (termination_bounded, fault_or_silence_terminates). That the runtime objects "
+              "are owned and dropped as in the model is decided by enumeration on the real endpoints: every cut point x direction x fault "
+              "kind, raw ports and typed layers (mpsc/oneshot/watch/broadcast/bin/lr, rtc, robs mirror, RwLock, Lazy), with a quiescence "
+              "detector (no call pending after one more hour), the clock (both dispatchers ended within timeout_A+timeout_B, the one shown "
+              "an error at once; every call returned by max(start, end of its dispatcher)), error classes compared with the proved table "
+              "(raw ports) resp. error-not-success, no clean end-of-stream before the error, no data-error misreport (typed layers), and "
+              "per-channel prefix checks.")
+LEVEL_NOTE = ("Partial: the ownership links are modelled as read, not derived from the Rust code; 'every real wait is parked on such a link' "
+              "is established by enumeration of cut points of the explored workloads, not by proof. The typed layers have no Lean model "
+              "here (their forwarding tasks are covered by the enumeration only). For allocator/semaphore waits the theorems state the "
+              "exception (still parked only while no unit is free; the dispatcher itself holds no port number after termination: "
+              "terminated_releases_ports) but there is no unit-accounting invariant. Delivery schedules: immediate and one-item-per-millisecond "
+              "wires, default task order only.")
+TECHNIQUE = "Lean 4 proofs (timing arithmetic, first-fault rule, prefix, wait/link LTS invariants) + exhaustive fault-point enumeration on the real crate under a virtual clock (raw ports and typed layers)"
 DESIGN_REF = "DESIGN.md section 5, C06"
 
 
 def run(ctx, replay=None):
     quick = ctx.tier == "quick"
     jobs = []
-    if replay:
+    up_replay = bool(replay) and open(replay).readline().startswith("# faultup one ")
+    if up_replay:
+        pass
+    elif replay:
         jobs.append(("replay", ["run", replay], None))
     else:
         if quick:
@@ -85,6 +122,74 @@ def run(ctx, replay=None):
             elif m.group(3) != "ok":
                 mism.append((tname, detail, trace))
 
+    # ---- layers above raw ports: typed channels, remote calls, mirrors, locks, lazy values (harness `faultup`)
+    up_total, up_fired, up_calls, up_judged, up_fails, up_mism, up_stats = 0, 0, 0, 0, [], [], {}
+    if up_replay:
+        up_jobs = [("upreplay", ["one"] + open(replay).readline().split()[3:], None)]
+    elif replay:
+        up_jobs = []
+    else:
+        # quick: cut points sampled with a stride chosen for about 600 runs; thorough: every cut point
+        up_jobs = [("up0", ["sweep", 2, 0, 600], ctx.seed * 1000 + 30)] if quick else \
+                  [("up0", ["sweep", 4, 1], ctx.seed * 1000 + 30)]
+    for name, args, seed in up_jobs:
+        rc, err, trace = ctx.harness("faultup", args, out_path=os.path.join(ctx.workdir, "%s.trace" % name), seed=seed)
+        if rc != 0:
+            ctx.violation("faultup harness crashed: " + err[-300:], "faultup-harness-crash", err[-4000:], name="faultup-crash.txt", no_input=True)
+            continue
+        for k, v in ctx.stat_lines(err).items():
+            up_stats[k] = up_stats.get(k, 0) + v if isinstance(v, int) else v
+        rc, lines = ctx.driver("faultup", trace)
+        if rc != 0:
+            ctx.violation("faultup driver failed", "faultup-driver-failure", "\n".join(lines[-30:]), no_input=True)
+            continue
+        for line in lines:
+            m = re.match(r"END (\S+) events=(\d+) replay=(\w+) c06=(\w+) fired=(\d) calls=(\d+) judged=(\d+)", line)
+            if not m:
+                continue
+            up_total += 1
+            tname = m.group(1)
+            up_calls += int(m.group(6)); up_judged += int(m.group(7))
+            if m.group(5) == "1" and tname not in seen:
+                seen.add(tname)
+                up_fired += 1
+                k = "up-" + tname.split("-")[-1]
+                kinds[k] = kinds.get(k, 0) + 1
+                if len(samples) < 8 and up_fired % 211 == 1:
+                    samples.append(tname)
+            if m.group(4) != "ok":
+                up_fails.append((tname, [l for l in lines if l.startswith("FAIL %s " % tname)], trace))
+            elif m.group(3) != "ok":
+                up_mism.append((tname, [l for l in lines if l.startswith("DIFF %s " % tname)], trace))
+
+    def up_trace_of(tname, trace):
+        out, on = [], False
+        with open(trace) as f:
+            for line in f:
+                if line.startswith("trace "):
+                    on = line.split()[1] == tname
+                elif on and not line.startswith(("tx ", "rx ", "put m3 ")):
+                    out.append(line)
+        return "".join(out)
+
+    for tname, detail, trace in up_fails[:5]:
+        first = detail[0] if detail else "FAIL %s c06 line=0 ?" % tname
+        what = re.sub(r"line=\d+ ", "", first.split(" ", 3)[3] if len(first.split(" ", 3)) > 3 else first)
+        what_sig = re.sub(r"call \S+ ", "call ", what)
+        sig = "c06up " + re.sub(r"[0-9a-f]{6,}|\d+", "#", what_sig)[:160]
+        # up-v<w>-s<vseed>-<wire>-<index>-<kind>
+        mm = re.match(r"up-v(\d+)-s(\d+)-(\w)-(\d+)-(\w+)$", tname)
+        head = "# faultup one %s %s %s %s %s\n" % (mm.group(2), mm.group(1), mm.group(3), mm.group(4), mm.group(5)) if mm else "# faultup %s\n" % tname
+        ctx.violation("c06 (typed layers) fails on %s: %s" % (tname, what), sig,
+                      head + "# fail-stop predicate failed for the typed-layer workload at this cut point; replay: ./check C06 --replay <this file>\n# "
+                      + "\n# ".join(detail) + "\n" + up_trace_of(tname, trace))
+
+    if up_mism and not up_fails and not fails:
+        tname, detail, trace = up_mism[0]
+        ctx.violation("results of %d typed-layer fault runs are not those of the model's run loop (first: %s: %s)" % (len(up_mism), tname, detail[0] if detail else ""),
+                      "replay-mismatch-up", "# correspondence M_conn <-> ChMux::run broken (typed-layer workload)\n# %s\n%s" % ("\n# ".join(detail), up_trace_of(tname, trace)),
+                      name="correspondence-M_conn-up.txt", no_input=True)
+
     def script_of(tname, trace):
         out, on = [], False
         with open(trace) as f:
@@ -107,5 +212,9 @@ def run(ctx, replay=None):
         ctx.violation("run results of %d fault runs are not those of the model's run loop (first: %s: %s)" % (len(mism), tname, detail[0] if detail else ""),
                       "replay-mismatch", "# correspondence M_conn <-> ChMux::run broken\n%s\n# %s" % (script_of(tname, trace), "\n# ".join(detail)),
                       name="correspondence-M_conn.txt", no_input=True)
-    ctx.coverage.update({"evaluations": total, "distinct_nontrivial": fired, "traces_validated_against_impl": total,
+    kinds.update({"up_" + k: v for k, v in up_stats.items()})
+    kinds["up_calls_observed"] = up_calls
+    kinds["up_calls_judged_after_failure"] = up_judged
+    ctx.coverage.update({"evaluations": total + up_total, "distinct_nontrivial": fired + up_fired,
+                         "traces_validated_against_impl": total + up_total,
                          "samples": samples, "input_distribution": kinds, "exhaustive": not quick})
